@@ -8,7 +8,7 @@ THEOREMS = ["Drand.DKG." + t for t in [
     "tie_sort_comparator", "tie_index_assignment", "tie_asgroup_fields", "tie_asgroup_seed_rule", "tie_transition_tail",
     "c06_sorted_perm", "c06_sorted_strict", "c06_order_independent", "c06_index_independent", "c06_asgroup_order_independent",
     "c06_group_function", "c06_group_fields", "c06_nodes_from_qual", "c06_seed_epoch1", "c06_seed_later",
-    "c06_transition_epoch1", "c06_transition_same_round", "c06_transition_differs", "c06_transition_iff_same_round",
+    "c06_transition_epoch1", "c06_transition_same_round", "c06_transition_refines", "c06_transition_differs", "c06_transition_iff_same_round",
     "c06_one_group_partial", "c06_one_group_counterexample"]] + \
     ["Drand.DKG.Pedersen." + t for t in ["c06_share_eq_eval", "c06_share_on_poly", "c06_pub_constant", "c06_threshold_signs", "c06_threshold_verifies"]]
 TRUSTED = ["Lean 4 kernel; axioms per theorem under coverage.axioms",
